@@ -486,6 +486,12 @@ func c14Run(c *core.Ctx, raw json.RawMessage) {
 	c.Log.Add("max deviation %d ms", maxDevMs)
 	if maxDevMs > 0 {
 		c.Sig(fmt.Sprintf("dev%d", maxDevMs/10))
+		for _, b := range []int64{10, 20, 30, 44, 60, 999} {
+			if maxDevMs <= b {
+				c.Probe(fmt.Sprintf("runs_with_max_time_literal_deviation_le_%dms", b))
+				break
+			}
+		}
 	}
 	c.Res.Trivial = c.Res.Probes["rewritten"] == 0
 	if len(findings) > 0 {
